@@ -24,6 +24,8 @@ void	lcb_verif_point(const char *tag) { (void)tag; }
 static int rec_tfd_last = -1;
 int	__wrap_timerfd_create(int clk, int flags) { rec_tfd_last = __real_timerfd_create(clk, flags); return (rec_tfd_last); }
 int	__wrap_timerfd_settime(int fd, int flags, const struct itimerspec *n, struct itimerspec *o) { return (__real_timerfd_settime(fd, flags, n, o)); }
+int	__real_close(int);
+int	__wrap_close(int fd) { if (fd == rec_tfd_last && fd >= 0) rec_tfd_last = -1; return (__real_close(fd)); }
 
 #define TIMEOUT_MS 3600000ull
 #define BIG 24576
@@ -173,12 +175,12 @@ apply(const hstep_t *s) {
 		if (peer_open) { close(sk[1]); sk[1] = -1; peer_open = 0; }
 		break;
 	case H_FIRE:
-		if (!(C.timeout && !task_dead) || rec_tfd_last < 0) break;
+		if (!C.timeout || rec_tfd_last < 0) break;	/* also after stop: the timerfd is closed by then on the correct tree */
 		memset(&its, 0, sizeof(its)); its.it_value.tv_nsec = 1;
 		__real_timerfd_settime(rec_tfd_last, 0, &its, NULL);
 		pfd.fd = rec_tfd_last; pfd.events = POLLIN;
 		for (i = 0; i < 1000 && 1 != poll(&pfd, 1, 10); i ++) ;
-		fires_armed ++;
+		if (!task_dead) fires_armed ++;
 		break;
 	}
 }
